@@ -1,6 +1,8 @@
 import PycsepVerif.Proto
 import PycsepVerif.Soft64
 import PycsepVerif.Drive.Soft
+import PycsepVerif.RealOps
+import PycsepVerif.Proofs.RealInst
 import PycsepVerif.Model.Ecdf
 import PycsepVerif.Proofs.Ecdf
 import PycsepVerif.Properties.C09
